@@ -1945,7 +1945,7 @@ class C17(Prop):
             "C09, C10, C14, C12, C13, C20 and C04; the two transcripts (accept/reject, decoded values, raw spans, serialized bytes, error codes and offsets) "
             "must be equal line by line; and the primitives called directly in BOTH builds (prefix_xor on single bits, pairs and random words; "
             "get_nonspace_bits with every byte value in every lane; u8xN eq/le and i8xN eq/le/gt bit masks for N = 16, 32, 64 with every byte value in every "
-            "lane against 8 constants, plus random vectors; store round trip; get_escaped_branchless_u64 on backslash runs of every length at every offset with both carries, get_string_bits on random JSON-like blocks with all four carries, skip_container_loop over whole generated documents and random bracket/quote/backslash soups block by block; simd_str2int on every digit-run length 1..16 x 12 terminator bytes x every need 1..16 x four digit patterns, plus random) "
+            "lane against 8 constants, plus random vectors; store round trip; get_escaped_branchless_u64 on backslash runs of every length at every offset with both carries, get_string_bits on random JSON-like blocks with all four carries, skip_container_loop over whole generated documents and random bracket/quote/backslash soups block by block; simd_str2int on every digit-run length 1..16 x 12 terminator bytes x every need 1..16 x four digit patterns, plus random; the BitMask functions of the u16 / u32 / u64 masks: first_offset, before on disjoint masks, all_zero, clear_high_bits for every n in 0..=LEN) "
             "against the Lean lane-wise model; non-trivial = every case")
     trusted = ["the CPU executes the vendor intrinsics as documented; the baseline build still uses SSE2 (there is no x86-64 target without it): the scalar "
                "v128 module is not exercised on this machine", "unsigned gt is todo!() in every backend and is not called"]
